@@ -88,6 +88,8 @@ class Profile:
         self.params = 0.4          # probability that a call/service carries inputs
         self.imm = 0.15            # probability of an immediate completion bit
         self.junk = 0.0            # probability of a junk call between two script steps
+        self.react = 0.0           # probability that a notification triggers a re-entrant completion
+        self.react_all = False     # ... also finished notifications (known finding D20)
         self.expr_depth = 2
         self.parloop_shapes = "safe"   # "safe": only shapes outside the known findings; "all"
         self.budget = 10           # bound on the number of service statements
@@ -348,4 +350,8 @@ def gen_case(rng, profile):
     nvals = rng.randint(2, 10)
     vals = [gen_valuation(rng) for _ in range(nvals)] + [FINAL_VALUATION]
     imm = [rng.random() < profile.imm for _ in range(40)]
-    return {"prog": prog, "vals": vals, "imm": imm}
+    case = {"prog": prog, "vals": vals, "imm": imm}
+    if profile.react:
+        case["react"] = [rng.randrange(0, 6) if rng.random() < profile.react else None for _ in range(80)]
+        case["react_all"] = bool(profile.react_all)
+    return case
